@@ -43,10 +43,15 @@ typedef enum gr_attrCode attrCode;
 
 /* ---- decoder state (fields of class Machine::Code::decoder and struct limits, Code.cpp) */
 typedef struct Code { bool _constraint; } Code;
-typedef struct limits { const byte *bytecode; uint8 pre_context; uint16 rule_length, classes, glyf_attrs, features; byte attrid[gr_slatMax]; } limits;
+typedef struct limits {
+/*@extract {'kind':'members', 'file':'src/Code.cpp', 'scope': r'struct Machine::Code::decoder::limits\s*\{', 'names':['bytecode','pre_context','rule_length','classes','glyf_attrs','features','attrid'],
+   'subs':[[r'^const uint8 ', 'uint8 ', 0], [r'^const uint16 ', 'uint16 ', 0], [r'^const byte attrid', 'byte attrid', 0]]}@*/
+} limits;
+typedef struct context { struct { uint8 changed:1, referenced:1; } flags; uint8 codeRef; } context;
+enum { NUMCONTEXTS = 256 };
 typedef struct decoder {
-    Code *_code_; int _out_index; uint16 _out_length; instr *_instr; byte *_data; limits *_max_; enum passtype _passtype;
-    int _stack_depth; bool _in_ctxt_item; int16 _slotref; byte _max_ref;
+/*@extract {'kind':'members', 'file':'src/Code.cpp', 'scope': r'class Machine::Code::decoder\s*\{', 'names':['_code','_out_index','_out_length','_instr','_data','_max','_passtype','_stack_depth','_in_ctxt_item','_slotref','_max_ref'],
+   'subs':[[r'Code & _code', 'Code * _code_', 0], [r'limits & _max', 'limits * _max_', 0]]}@*/
 } decoder;
 
 /* ---- ghost */
